@@ -354,33 +354,40 @@ def toInt : Option Num → Res (Option Int)
 /-- `sign = #'opt { [$, 0] compare }` -/
 def sign (x : Option Num) : Res (Option Int) := compare x (some (.int 0))
 
-/-- `min` -/
+/-- `min`: `[x, y] compare` is its own step, so a nil comparison (incompatible radicals)
+short-circuits to nil; then `{ | =1 => y | x }`. -/
 def min : Option Num → Option Num → Res (Option Num)
   | none, _ => pure none
   | some _, none => pure none
   | some x, some y => do
-    let c ← compare (some x) (some y)
-    if c = some 1 then pure (some y) else pure (some x)
+    match ← compare (some x) (some y) with
+    | none => pure none
+    | some c => if c = 1 then pure (some y) else pure (some x)
 
 /-- `max` -/
 def max : Option Num → Option Num → Res (Option Num)
   | none, _ => pure none
   | some _, none => pure none
   | some x, some y => do
-    let c ← compare (some x) (some y)
-    if c = some (-1) then pure (some y) else pure (some x)
+    match ← compare (some x) (some y) with
+    | none => pure none
+    | some c => if c = -1 then pure (some y) else pure (some x)
 
-/-- `clamp` -/
+/-- `clamp`: `[x, lo] compare, { | =-1 => lo | [x, hi] compare, { | =1 => hi | x } }` — each
+comparison is a step of a sequence, nil short-circuits; `hi` is only looked at when `x ≥ lo`. -/
 def clamp : Option Num → Option Num → Option Num → Res (Option Num)
   | none, _, _ => pure none
   | some _, none, _ => pure none
   | some _, some _, none => pure none
   | some x, some lo, some hi => do
-    let c ← compare (some x) (some lo)
-    if c = some (-1) then pure (some lo)
-    else do
-      let c' ← compare (some x) (some hi)
-      if c' = some 1 then pure (some hi) else pure (some x)
+    match ← compare (some x) (some lo) with
+    | none => pure none
+    | some c =>
+      if c = -1 then pure (some lo)
+      else do
+        match ← compare (some x) (some hi) with
+        | none => pure none
+        | some c' => if c' = 1 then pure (some hi) else pure (some x)
 
 /-- `floor`: `t = $ to_int` short-circuits on nil; then the nudge. -/
 def floor (x : Option Num) : Res (Option Int) := do
